@@ -83,7 +83,16 @@ func ruleFieldBij(r *Run) {
 		reads map[string]bool // fields in the slice incl. control dependence
 		data  map[string]bool // fields whose value flows into the result (Get side only)
 		res   *sliceRes
+		all   []*sliceRes // the slices of every store to the field (a field may be set on several paths)
 		pos   ssa.Instruction
+	}
+	anyCallsTo := func(i *info, name string) bool {
+		for _, rs := range i.all {
+			if rs.callsTo(name) {
+				return true
+			}
+		}
+		return i.res != nil && i.res.callsTo(name)
 	}
 	setM := map[string]*info{} // XML field → PageSettings fields read
 	// SetPageSettings and the private helpers it builds the section XML with (newPageMargin(settings) …)
@@ -107,12 +116,14 @@ func ruleFieldBij(r *Run) {
 		if setM[k] == nil {
 			setM[k] = &info{reads: map[string]bool{}, res: res, pos: st}
 		}
+		setM[k].all = append(setM[k].all, res)
 		for f := range res.fieldsReadOf(p, psOwner) {
 			setM[k].reads[f] = true
 		}
 	})
 	getM := map[string]*info{} // PageSettings field → XML fields read
-	allInstrs(getFn, func(in ssa.Instruction) {
+	// GetPageSettings and the private helpers that decode the section XML for it ((*PageMargin).applyTo(&settings) …)
+	forEachInstr(helperGroup(p, getFn), func(in ssa.Instruction) {
 		st, ok := in.(*ssa.Store)
 		if !ok {
 			return
@@ -130,6 +141,7 @@ func ruleFieldBij(r *Run) {
 		if getM[k] == nil {
 			getM[k] = &info{reads: map[string]bool{}, data: map[string]bool{}, res: res, pos: st}
 		}
+		getM[k].all = append(getM[k].all, res)
 		for f := range res.fieldsReadOf(p, xmlOwners) {
 			getM[k].reads[f] = true
 		}
@@ -154,7 +166,7 @@ func ruleFieldBij(r *Run) {
 			r.Check("field-bij", pk+"<-"+x, gi.pos.Pos(), ok, detail)
 			// unit conversion symmetry
 			if ok {
-				conv := gi.res.callsTo("twipsToMM") == si.res.callsTo("mmToTwips")
+				conv := anyCallsTo(gi, "twipsToMM") == anyCallsTo(si, "mmToTwips")
 				r.Check("field-bij", pk+"<-"+x+":units", gi.pos.Pos(), conv,
 					fmt.Sprintf("%s and %s must use inverse unit conversions (twipsToMM on read ⇔ mmToTwips on write)", pk, x))
 			}
